@@ -573,4 +573,4 @@ def ev_abs(t, Um, Vm, Fm, prm, accs):
 
 
 def term_magnitude(t, Um, Vm, Fm, prm, accs, dx):
-    return Fraction(float(np.sum(ev_abs(t, Um, Vm, Fm, prm, accs) * np.asarray(dx))))
+    return Fraction(float(np.sum(ev_abs(t, Um, Vm, Fm, prm, accs) * np.abs(np.asarray(dx)))))      # weights can be negative
